@@ -188,7 +188,7 @@ theorem wwrite_within (w : Writer) (d : Bytes) (hw : w.Ok) :
     AllCallsR (Call.within [w.cache]) (fun r => ∀ w' n, r = .ok (w', n) → w.Same w')
       (wwrite w d) := by
   have hp := hw.prefix
-  unfold wwrite
+  unfold wwrite plainWrite
   repeat' ac_step
   all_goals first
     | ac_leaf
